@@ -94,12 +94,23 @@ func (c retCfg) text(port int) string {
 	return b.String()
 }
 
-func retConfigs() []retCfg {
+// retConfigs: the full 3 x 3 x 3 x 2 product (thorough); the quick tier keeps the configurations in which at most
+// two of the four settings differ from the documented default (26 of 54), so that it completes within its budget.
+func retConfigs(maxNonDefault int) []retCfg {
 	var out []retCfg
 	for _, q := range []ageSetting{{"", docQueueMaxAge}, {"off", 0}, {"10m", 10 * time.Minute}} {
 		for _, d := range []ageSetting{{"", docDLQMaxAge}, {"off", 0}, {"10m", 10 * time.Minute}} {
 			for _, n := range []depthSetting{{"", docDLQMaxDepth}, {"off", 0}, {"1", 1}} {
 				for _, del := range []ageSetting{{"", 0}, {"10m", 10 * time.Minute}} {
+					nd := 0
+					for _, written := range []string{q.spelled, d.spelled, n.spelled, del.spelled} {
+						if written != "" {
+							nd++
+						}
+					}
+					if nd > maxNonDefault {
+						continue
+					}
 					out = append(out, retCfg{queueAge: q, dlqAge: d, dlqDepth: n, deliveredAge: del})
 				}
 			}
@@ -554,7 +565,7 @@ func retentionPart(r *runner.Run, t *testing.T) {
 	defer debug.SetGCPercent(debug.SetGCPercent(400))
 	maxLen := runner.Pick(r, 3, 4)
 	deadline := r.Deadline(30*time.Second, 6*time.Minute)
-	cfgs := retConfigs()
+	cfgs := retConfigs(runner.Pick(r, 2, 4))
 	hists := retHistories(maxLen)
 	// histories outermost, so that a budget that ends the part early has still seen every configuration
 	var cases []retCase
@@ -638,6 +649,6 @@ func retentionPart(r *runner.Run, t *testing.T) {
 		"history_max_length":           maxLen,
 		"pairs":                        len(cases),
 		"removals_a_rule_allowed_seen": cl,
-		"rule":                         "queue_retention.max_age {default 7d, off, 10m} x dlq_retention.max_age {default 30d, off, 10m} x dlq_retention.max_depth {default 10000, off, 1} x delivered_retention.max_age {default off, 10m} x every history of 1..max_length operations over {ingress pull, ingress fan-out, publish 2 items, dequeue 2, ack, nack, dead-letter the oldest unused lease, clock +6m (beyond prune_interval)} (a settlement only where a lease can exist); production boot path on SQLite inside a synctest bubble, shutdown, boot again on the same database, idle poll, direct read of queue_items, then +61m and a dequeue of every (route, target)",
+		"rule":                         "queue_retention.max_age {default 7d, off, 10m} x dlq_retention.max_age {default 30d, off, 10m} x dlq_retention.max_depth {default 10000, off, 1} x delivered_retention.max_age {default off, 10m} (quick tier: the configurations with at most two settings away from their default; thorough: the whole product) x every history of 1..max_length operations over {ingress pull, ingress fan-out, publish 2 items, dequeue 2, ack, nack, dead-letter the oldest unused lease, clock +6m (beyond prune_interval)} (a settlement only where a lease can exist); production boot path on SQLite inside a synctest bubble, shutdown, boot again on the same database, idle poll, direct read of queue_items, then +61m and a dequeue of every (route, target)",
 	})
 }
